@@ -407,20 +407,33 @@ func trieGapsAtDepth[K kad.Key[K], D any](t *trie.Trie[bitstr.Key, D], depth int
 			continue
 		}
 		bstr := bitstr.Key(byte('0' + i))
+		// Above the target's depth, nothing outside of `target` is a gap: an
+		// uncovered branch leaves the whole (rest of the) target uncovered.
+		uncovered := bstr
+		if !insideTarget {
+			uncovered = target[depth:]
+		}
 		if b := t.Branch(i); b == nil {
-			gaps = append(gaps, bstr)
+			gaps = append(gaps, uncovered)
 		} else if b.IsLeaf() {
 			if b.HasKey() {
 				k := *b.Key()
-				if len(k) > depth+1 {
-					siblingPrefixes := SiblingPrefixes(k)[depth+1:]
-					sortBitstrKeysByOrder(siblingPrefixes, order)
-					for _, siblingPrefix := range siblingPrefixes {
-						gaps = append(gaps, siblingPrefix[depth:])
+				if insideTarget || IsBitstrPrefix(target, k) {
+					// Gaps are the siblings of k that lie inside target.
+					from := max(depth+1, len(target))
+					if len(k) > from {
+						siblingPrefixes := SiblingPrefixes(k)[from:]
+						sortBitstrKeysByOrder(siblingPrefixes, order)
+						for _, siblingPrefix := range siblingPrefixes {
+							gaps = append(gaps, siblingPrefix[depth:])
+						}
 					}
+				} else if !IsBitstrPrefix(k, target) {
+					// k is neither above nor below target.
+					gaps = append(gaps, uncovered)
 				}
 			} else {
-				gaps = append(gaps, bstr)
+				gaps = append(gaps, uncovered)
 			}
 		} else {
 			for _, gap := range trieGapsAtDepth(b, depth+1, target, order) {
